@@ -168,6 +168,25 @@ Fixpoint build (fuel : nat) (bfs : bool) (choose : ctree -> N) (work : list ctre
     end
   end.
 
+(* choose_value validates the chosen value against the parameter's domain for EVERY parameter type
+   (ParameterConfig.get_subspace_deepcopy -> _assert_feasible, "get_subspace also validates the value"); the atom 0 stands
+   for a value outside the domain.  The result records (parameter, value) in visiting order. *)
+Fixpoint build_v (fuel : nat) (bfs : bool) (choose : ctree -> N) (work : list ctree) : res (list (ctree * N)) :=
+  match fuel with
+  | O => Ok []
+  | S fuel' =>
+    match work with
+    | [] => Ok []
+    | t :: rest =>
+      let v := choose t in
+      if N.eqb v 0 then Err EValue
+      else match build_v fuel' bfs choose (if bfs then rest ++ subspace t v else subspace t v ++ rest) with
+           | Ok l => Ok ((t, v) :: l)
+           | Err e => Err e
+           end
+    end
+  end.
+
 Fixpoint ct_size (t : ctree) : nat :=
   match t with
   | CNode _ ch => S ((fix go (l : list (list N * ctree)) : nat :=
